@@ -148,10 +148,12 @@ def region(s, d, a, b, op):
 
 
 class Evaluator:
-    def __init__(self, var_ids, env=None, const_env=None):
-        """var_ids: set of decl ids that denote the free variable; env: decl id -> init expression"""
+    def __init__(self, var_ids, env=None, const_env=None, ptr_zero=False):
+        """var_ids: set of decl ids that denote the free variable; env: decl id -> init expression.
+        ptr_zero: pointer-typed leaves evaluate to 0 (offsets relative to an unknown base, arithmetic modulo 2^64)"""
         self.var_ids = set(var_ids)
         self.env = env if env is not None else {}
+        self.ptr_zero = ptr_zero
 
     def ev(self, e, S):
         k = e["k"]
@@ -161,13 +163,19 @@ class Evaluator:
         if k == "ref":
             if e["d"] in self.var_ids:
                 return [(lo, hi, 1, 0) for lo, hi in S]
+            if self.ptr_zero and (e.get("t") or {}).get("k") in ("ptr", "fnptr"):
+                return [(lo, hi, 0, 0) for lo, hi in S]
             if e["d"] in self.env:
                 return self.ev(self.env[e["d"]], S)
             raise Inconclusive("reference to %s" % e.get("n"))
+        if self.ptr_zero and k == "call" and (e.get("t") or {}).get("k") in ("ptr", "fnptr"):
+            return [(lo, hi, 0, 0) for lo, hi in S]
         if k in ("icast", "cast"):
             ck = e["ck"]
             sub = self.ev(e["e"], S)
             if ck in ("LValueToRValue", "NoOp"):
+                return sub
+            if self.ptr_zero and ck in ("PointerToIntegral", "IntegralToPointer", "BitCast"):
                 return sub
             if ck == "IntegralCast":
                 return wrap_pieces(sub, e["t"])
